@@ -27,6 +27,7 @@ func (k Key) String() string {
 type Req struct {
 	Seq       int    // global sequence number
 	MutIdx    int    // index among mutating requests (-1 for reads)
+	ListIdx   int    // index among list requests
 	Verb      string // get list create update patch delete
 	Via       string // dyn | http
 	Key       Key
@@ -50,8 +51,9 @@ type Cluster struct {
 	Log     []*Req
 	// FailMut[k]: reject the mutating request with index k (no effect on the store). FailSeq likewise by global sequence.
 	FailMut map[int]bool
-	FailRead map[int]bool // by index among read requests
-	readIdx int
+	// FailReq: a read request for which it returns true is rejected (evaluated in begin, store lock held)
+	FailReq func(r *Req) bool
+	InvLists int // number of LISTs so far (the harness only lists the inventory resource)
 	// Before is called (without the store lock) before a request is executed; it may block to impose a schedule.
 	Before func(r *Req)
 	// After is called after a request was executed (store lock NOT held).
@@ -66,7 +68,7 @@ type Cluster struct {
 }
 
 func New() *Cluster {
-	return &Cluster{objs: map[Key]*unstructured.Unstructured{}, FailMut: map[int]bool{}, FailRead: map[int]bool{}, Finalizer: map[Key]bool{},
+	return &Cluster{objs: map[Key]*unstructured.Unstructured{}, FailMut: map[int]bool{}, Finalizer: map[Key]bool{},
 		Kinds: map[schema.GroupKind]schema.GroupVersionResource{}}
 }
 
@@ -83,10 +85,13 @@ func (c *Cluster) begin(r *Req) *Req {
 		}
 	} else {
 		r.MutIdx = -1
-		if c.FailRead[c.readIdx] {
+		if r.Verb == "list" {
+			r.ListIdx = c.InvLists
+			c.InvLists++
+		}
+		if c.FailReq != nil && c.FailReq(r) {
 			r.Rejected = true
 		}
-		c.readIdx++
 	}
 	c.Log = append(c.Log, r)
 	if c.Closed {
@@ -122,8 +127,8 @@ func (c *Cluster) NewRun() {
 	defer c.mu.Unlock()
 	c.Log = nil
 	c.LateReqs = nil
-	c.mutIdx, c.readIdx = 0, 0
-	c.FailMut, c.FailRead = map[int]bool{}, map[int]bool{}
+	c.mutIdx, c.InvLists = 0, 0
+	c.FailMut, c.FailReq = map[int]bool{}, nil
 	c.Before, c.After = nil, nil
 	c.Closed = false
 }
